@@ -870,7 +870,8 @@ class C20(Property):
             return {"k": "dense", "v": [], "wrap": rng.choice(["list", "list", "tuple"])}
         if kind == "scalar":
             if rng.chance(0.2):
-                return {"k": "scalar", "v": rng.choice([{"n": [0, 1]}, {"n": [0, 1], "f": True}, {"n": [1, 1]}, {"n": [-1, 1]}])}
+                zero_f = {"n": [0, 1], "f": True} if pool in ("dyadic", "floats") else {"n": [0, 1]}
+                return {"k": "scalar", "v": rng.choice([{"n": [0, 1]}, zero_f, {"n": [1, 1]}, {"n": [-1, 1]}])}
             return {"k": "scalar", "v": self.gen_numbers(rng, pool, 1, state)[0]}
         if kind == "scalar_str":
             return {"k": "scalar", "v": {"s": rng.choice(["abc", "d", "0", "", "x1"])}}
@@ -1062,9 +1063,11 @@ class C20(Property):
             else:
                 ns = []
                 # keep every product exact: a call with floats only receives small dyadic floats
-                pool = ("fractions" if any(it.get("q") for it in all_items({"ns": prev}))
-                        else "floats" if any(it.get("r") for it in all_items({"ns": prev}))
-                        else "dyadic" if any(it.get("f") for it in all_items({"ns": prev})) else "primes")
+                its = [it for it in all_items({"ns": prev}) if "n" in it]
+                small = all(abs(it["n"][0]) < 2 ** 20 for it in its)
+                pool = ("fractions" if any(it.get("q") for it in its)
+                        else "floats" if any(it.get("r") for it in its)
+                        else "dyadic" if (any(it.get("f") for it in its) and small) else "primes")
                 for c, v in prev:
                     v2 = self.vary(rng, v, state, pool)
                     if mode == "same-object" and "obj" in v:
